@@ -46,7 +46,8 @@ def sample_vehicles(
     :return: the updated setup, or, a failure
     """
 
-    mechatronics_id = random.choice(list(env.mechatronics.keys()))
+    # sorted: a seeded random.choice must not depend on the hash order of the Map keys
+    mechatronics_id = random.choice(sorted(env.mechatronics.keys()))
     mechatronics = env.mechatronics.get(mechatronics_id)
     if not mechatronics:
         return Failure(KeyError(f"mechatronics with id {mechatronics_id} not found"))
@@ -135,7 +136,8 @@ def build_default_location_sampling_fn(seed: int = 0) -> Callable[[SimulationSta
         if sim.road_network.link_helper is None:
             raise Exception("Expected link helper on OSMRoadNetwork but found None")
 
-        links = list(sim.road_network.link_helper.links.values())
+        # sorted: a seeded random.choice must not depend on the hash order of the Map values
+        links = sorted(sim.road_network.link_helper.links.values(), key=lambda l: l.link_id)
         if len(links) == 0:
             raise AssertionError(f"must have at least one link to sample from")
         random_link = random.choice(links)
